@@ -253,3 +253,114 @@ Print Assumptions c08_argument_occurrence_of_macro_origin_renamed. Print Assumpt
 Print Assumptions c08_fast_path_sound_with_full_argument_scan. Print Assumptions c08_nested_argument_example.
 Print Assumptions c08_flat_argument_scan_variant_not_hygienic. Print Assumptions c08_flat_argument_scan_variant_not_hygienic_nested_invocation.
 Print Assumptions c08_flat_argument_scan_top_level_control. Print Assumptions c08_nested_invocation_argument_example.
+
+(* ------------------------------------------------------------------------------------------------------------------------
+   EXPRESSION-LEVEL SCOPES (Macros/MacroScopes.v; the tie runs the family gen/c08_scopes.py on every check).
+   The model above treats an expression as a tree of vocabulary functions over variables.  A Rust expression has binders of
+   its own — a block's `let`, a closure parameter, a match arm (with a guard), `if let`, `for` — and the renaming finds the
+   occurrences of a macro local inside it through the free-variable walk of ascent_macro/src/syn_utils.rs.  MacroScopes.sx is
+   an expression language with those binders; identifiers = (spelling, origin); [eval same_id] reads the instantiated macro
+   body hygienically (an identifier is its spelling AND the invocation that wrote it), [eval same_nm] as rustc does (spelling
+   only); [ren c m bound e] is the walk + renaming ([m]: macro-originated rule-level binder -> generated spelling; the binders
+   of the expression are never renamed, as in the code); [ren_env m] renames the rule-level binders.
+   Hypothesis [hyp m dom [] e] (decidable, computed by the tie for every program):
+     - every occurrence that rustc resolves to a binder of the expression (the innermost one of its spelling) IS that binder's
+       identifier (same origin): no binder written in the macro body stands above an identifier of the same spelling coming
+       from the call site through a parameter, and vice versa;
+     - the remaining (free) occurrences and the rule-level identifiers [dom] keep apart once renamed;
+     - no binder of the expression is spelled like a generated name. *)
+From AV Require Import Macros.MacroScopes.
+
+(* Rust's scoping, as equations on the free occurrences: the initialiser of a let is OUTSIDE the let's scope; a closure
+   parameter scopes over the closure body, not over the argument; an arm's binder over its guard and body, not over the
+   scrutinee nor the other arm; the binder of `if let` over the then-block only; the binder of `for` over the loop body only. *)
+Theorem c08_scopes_let_initialiser_is_outside_the_lets_scope : forall bound b i body,
+  free_occs rust_walk bound (SLet b i body) = free_occs rust_walk bound i ++ free_occs rust_walk (iname b :: bound) body.
+Proof. exact free_occs_let. Qed.
+Theorem c08_scopes_closure_parameter_scopes_over_the_body_only : forall bound b body a,
+  free_occs rust_walk bound (SClo b body a) = free_occs rust_walk (iname b :: bound) body ++ free_occs rust_walk bound a.
+Proof. exact free_occs_clo. Qed.
+Theorem c08_scopes_match_arm_scopes_over_guard_and_body : forall bound s b g body els,
+  free_occs rust_walk bound (SMatchG s b g body els) =
+  free_occs rust_walk bound s ++ free_occs rust_walk (iname b :: bound) g ++ free_occs rust_walk (iname b :: bound) body ++ free_occs rust_walk bound els.
+Proof. exact free_occs_matchg. Qed.
+Theorem c08_scopes_if_let_scopes_over_the_then_block_only : forall bound b s thn els,
+  free_occs rust_walk bound (SIfLet b s thn els) = free_occs rust_walk bound s ++ free_occs rust_walk (iname b :: bound) thn ++ free_occs rust_walk bound els.
+Proof. exact free_occs_iflet. Qed.
+Theorem c08_scopes_for_scopes_over_the_loop_body_only : forall bound b bd body,
+  free_occs rust_walk bound (SFor b bd body) = free_occs rust_walk bound bd ++ free_occs rust_walk (iname b :: bound) body.
+Proof. exact free_occs_for. Qed.
+
+(* the renaming touches exactly the free occurrences (whatever the walk decides to call free) and no binder *)
+Theorem c08_scopes_renaming_touches_exactly_the_free_occurrences : forall c m e bound,
+  map fst (occs c bound (ren c m bound e)) = map (fun p : MacroScopes.ident * bool => if snd p then ren_ident m (fst p) else fst p) (occs c bound e)
+  /\ binders (ren c m bound e) = binders e.
+Proof. exact ren_spec. Qed.
+
+(* NO CAPTURE, for the walk with Rust's scoping: renaming the free occurrences of the macro locals together with the rule-level
+   binders, then reading by spelling alone, is the hygienic reading *)
+Theorem c08_scopes_hygiene_rust_scoping : forall m outer e,
+  hyp m (map fst outer) [] e = true ->
+  eval same_nm (ren_env m outer) (ren rust_walk m [] e) = eval same_id outer e.
+Proof. exact ren_sound. Qed.
+
+(* the walk of the code as it is (real_walk: the guard of a match arm is walked outside the arm's scope): PARTIAL — the extra
+   hypothesis guards_ok (no guard mentions, under the spelling of its arm's binder, an identifier that the renaming maps)
+   excludes the finding match_guard_walked_outside_arm_scope, refuted below without it.  Also missing: the link to the rule
+   level (MacroScopesEval.run_rule: one rule of clauses / let / if let / for / conditions / negations over these expressions,
+   several invocations = several passes) is evaluated by the tie on every program, not proved. *)
+Theorem c08_scopes_hygiene_real_walk_partial : forall m outer e,
+  hyp m (map fst outer) [] e = true -> guards_ok m e = true ->
+  eval same_nm (ren_env m outer) (ren real_walk m [] e) = eval same_id outer e.
+Proof. exact ren_sound_real. Qed.
+Theorem c08_scopes_real_walk_agrees_with_rust_scoping : forall m e bound,
+  guards_ok m e = true -> ren real_walk m bound e = ren rust_walk m bound e.
+Proof. exact real_walk_agrees. Qed.
+Theorem c08_scopes_hygiene_real_walk_without_guards_ok_refuted : exists m outer e,
+  hyp m (map fst outer) [] e = true
+  /\ eval same_nm (ren_env m outer) (ren rust_walk m [] e) = eval same_id outer e
+  /\ eval same_nm (ren_env m outer) (ren real_walk m [] e) <> eval same_id outer e.
+Proof. exact real_walk_guard_refuted. Qed.
+
+(* several invocations (a nested one, expanded and renamed first, then the enclosing one; two invocations in one rule): the
+   passes applied one after the other are the single pass of the theorem with both mappings, provided the second pass does not
+   rename again a name generated by the first ([apart]: the name supply is threaded through the rule) *)
+Theorem c08_scopes_hygiene_two_invocations : forall m1 m2 outer e,
+  apart m1 m2 ->
+  hyp (m1 ++ m2) (map fst outer) [] e = true ->
+  eval same_nm (ren_env m2 (ren_env m1 outer)) (ren rust_walk m2 [] (ren rust_walk m1 [] e)) = eval same_id outer e.
+Proof. exact ren_sound_two_passes. Qed.
+
+(* REFUTED variant (not the code: seed C08 round 5): a block's `let v = <init>` that binds v already inside <init> — the macro
+   local read by the initialiser of a shadowing let is not renamed and is captured by the call site's variable of that spelling;
+   the hypotheses of the theorem above hold for the witness { let x = incs(x); x } *)
+Theorem c08_scopes_let_bound_inside_its_initialiser_refuted : exists m outer e,
+  hyp m (map fst outer) [] e = true /\ guards_ok m e = true
+  /\ eval same_nm (ren_env m outer) (ren seed_walk m [] e) <> eval same_id outer e.
+Proof. exact seed_walk_refuted. Qed.
+Example c08_scopes_shadowing_let_example :
+  ren real_walk w_map [] w_shadow = SLet X1 (SOp1 0 (SVar ("__x_"%string, 1%nat))) (SVar X1)
+  /\ ren rust_walk w_map [] w_shadow = ren real_walk w_map [] w_shadow
+  /\ ren seed_walk w_map [] w_shadow = w_shadow
+  /\ free_occs rust_walk [] w_shadow = [X1] /\ free_occs seed_walk [] w_shadow = []
+  /\ eval same_id w_outer w_shadow = Some 7%Z
+  /\ eval same_nm (ren_env w_map w_outer) (ren real_walk w_map [] w_shadow) = Some 7%Z
+  /\ eval same_nm (ren_env w_map w_outer) (ren seed_walk w_map [] w_shadow) = Some 2%Z.
+Proof. exact shadow_example. Qed.
+
+(* outside hyp (finding expression_binder_resolved_by_spelling): the binders of expressions are not renamed, so a `let x`
+   written in the macro body captures the call site's x that an argument brings below it — whatever the walk *)
+Theorem c08_scopes_expression_binder_captures_refuted : exists m outer e,
+  guards_ok m e = true /\ hyp m (map fst outer) [] e = false
+  /\ ren real_walk m [] e = e /\ ren rust_walk m [] e = e
+  /\ eval same_nm (ren_env m outer) e <> eval same_id outer e.
+Proof. exact expression_binder_captures_refuted. Qed.
+
+Print Assumptions c08_scopes_let_initialiser_is_outside_the_lets_scope. Print Assumptions c08_scopes_closure_parameter_scopes_over_the_body_only.
+Print Assumptions c08_scopes_match_arm_scopes_over_guard_and_body. Print Assumptions c08_scopes_if_let_scopes_over_the_then_block_only.
+Print Assumptions c08_scopes_for_scopes_over_the_loop_body_only. Print Assumptions c08_scopes_renaming_touches_exactly_the_free_occurrences.
+Print Assumptions c08_scopes_hygiene_rust_scoping. Print Assumptions c08_scopes_hygiene_real_walk_partial.
+Print Assumptions c08_scopes_real_walk_agrees_with_rust_scoping. Print Assumptions c08_scopes_hygiene_real_walk_without_guards_ok_refuted.
+Print Assumptions c08_scopes_let_bound_inside_its_initialiser_refuted. Print Assumptions c08_scopes_shadowing_let_example.
+Print Assumptions c08_scopes_expression_binder_captures_refuted.
+Print Assumptions c08_scopes_hygiene_two_invocations.
